@@ -494,40 +494,7 @@ Proof.
   - intros (f & Hf & Hp & E). exists f. split; [exact E | apply filter_In; tauto].
 Qed.
 
-(* ---------- Fit.best_fit ---------- *)
-
-Lemma best_row_from_spec (l : list row) : forall cur v b,
-  r_maxll cur = Some v -> best_row_from cur v l = Some b ->
-  In b (cur :: l) /\
-  exists w, r_maxll b = Some w /\ (v <= w)%Z /\
-            forall c, In c l -> exists u, r_maxll c = Some u /\ (u <= w)%Z.
-Proof.
-  induction l as [|x r IH]; intros cur v b Hv H; simpl in H.
-  - injection H as <-. split; [left; reflexivity|]. exists v. split; [exact Hv|]. split; [lia|]. intros c [].
-  - destruct (r_maxll x) as [u|] eqn:Ex; [|discriminate].
-    destruct (Z.ltb v u) eqn:E.
-    + apply Z.ltb_lt in E. destruct (IH x u b Ex H) as (Hin & w & Hw & Hle & Hall).
-      split; [destruct Hin as [Hin|Hin]; [right; left; exact Hin | right; right; exact Hin]|].
-      exists w. split; [exact Hw|]. split; [lia|].
-      intros c [<-|Hc]; [exists u; split; [exact Ex | exact Hle] | apply Hall; exact Hc].
-    + apply Z.ltb_ge in E. destruct (IH cur v b Hv H) as (Hin & w & Hw & Hle & Hall).
-      split; [destruct Hin as [Hin|Hin]; [left; exact Hin | right; right; exact Hin]|].
-      exists w. split; [exact Hw|]. split; [exact Hle|].
-      intros c [<-|Hc]; [exists u; split; [exact Ex | lia] | apply Hall; exact Hc].
-Qed.
-
-Theorem best_child_is_max (db : list row) (gid : string) (b : row) :
-  best_child db gid = Some b ->
-  In b (children db gid) /\
-  exists w, r_maxll b = Some w /\
-            forall c, In c (children db gid) -> exists u, r_maxll c = Some u /\ (u <= w)%Z.
-Proof.
-  unfold best_child. destruct (children db gid) as [|x r] eqn:E; [discriminate|].
-  destruct (r_maxll x) as [v|] eqn:Ex; [|discriminate]. intro H.
-  destruct (best_row_from_spec r x v b Ex H) as (Hin & w & Hw & Hle & Hall).
-  split; [exact Hin|]. exists w. split; [exact Hw|].
-  intros c [<-|Hc]; [exists v; split; [exact Ex | exact Hle] | apply Hall; exact Hc].
-Qed.
+(* ---------- Fit.best_fit / best_fits(): see Proofs5.v ---------- *)
 
 Lemma children_spec (db : list row) (gid : string) (r : row) :
   In r (children db gid) <-> In r db /\ r_parent r = Some gid.
